@@ -193,6 +193,48 @@ def escapeGoString (s : String) : String := String.ofList (escapeChars s.toList)
 
 /-! ## `go_float_literal`: Rust's `{}` of an `f64` (shortest digits that read back, never an exponent) -/
 
+/-- Rust's shortest digits (`core::num::flt2dec::strategy::dragon::format_shortest`, which Grisu falls back to):
+    `FloatFmt.shortest` with ONE difference — when both neighbouring candidates lie in the rounding interval and the
+    value is exactly half way, Rust rounds UP (`up && (!down || 2·mant >= scale)`) where Go's strconv rounds to even
+    (found by the tie on widened f32 values such as 658.31304931640625) -/
+def rustShortest (m : Nat) (e : Int) (mantBits : Nat) (minExp : Int) : List Nat × Int := Id.run do
+  let x := FloatFmt.qOf m e
+  -- rounding interval of x
+  let upper := FloatFmt.qOf (2 * m + 1) (e - 1)
+  let lower := if m == 2 ^ mantBits && e > minExp then FloatFmt.qOf (4 * m - 1) (e - 2) else FloatFmt.qOf (2 * m - 1) (e - 1)
+  let inclusive := m % 2 == 0
+  let inside (d : FloatFmt.Q) : Bool :=
+    (if inclusive then lower.le d else lower.lt d) && (if inclusive then d.le upper else d.lt upper)
+  -- dp with 10^(dp-1) ≤ x < 10^dp
+  let mut dp : Int := 0
+  let mut guard := 0
+  while guard < 800 && FloatFmt.Q.le ⟨10 ^ dp.toNat, 10 ^ (-dp).toNat⟩ x do
+    dp := dp + 1; guard := guard + 1
+  guard := 0
+  while guard < 800 && FloatFmt.Q.lt x ⟨10 ^ (dp - 1).toNat, 10 ^ (1 - dp).toNat⟩ do
+    dp := dp - 1; guard := guard + 1
+  for nd in [1:18] do
+    -- scale: x / 10^(dp-nd)
+    let s : Int := dp - nd
+    let scaledNum := x.num * 10 ^ (-s).toNat
+    let scaledDen := x.den * 10 ^ s.toNat
+    let lo := scaledNum / scaledDen
+    let cand (D : Nat) : FloatFmt.Q := ⟨D * 10 ^ s.toNat, 10 ^ (-s).toNat⟩
+    let okLo := lo ≥ 10 ^ (nd - 1) && inside (cand lo)
+    let okHi := inside (cand (lo + 1))
+    if okLo || okHi then
+      -- the closer one; an exact tie goes UP
+      let rem2 := 2 * (scaledNum - lo * scaledDen)
+      let pickHi := okHi && (!okLo || rem2 ≥ scaledDen)
+      let D := if pickHi then lo + 1 else lo
+      if D == 10 ^ nd then return ([1], dp + 1)
+      let ds := FloatFmt.natDigits D
+      -- strip trailing zeros
+      let ds := (ds.reverse.dropWhile (· == 0)).reverse
+      return (if ds.isEmpty then [0] else ds, dp)
+  return (FloatFmt.natDigits m, dp)
+
+
 def rustDisplayF64 (bits : Nat) : String :=
   let (neg, m, e, special, zero) := FloatFmt.decode bits 52 11
   let sign := if neg then "-" else ""
@@ -200,7 +242,7 @@ def rustDisplayF64 (bits : Nat) : String :=
   else if zero then sign ++ "0"
   else
     let bias : Int := (2 : Int) ^ 10 - 1
-    let (ds, dp) := FloatFmt.shortest m e 52 (1 - bias - 52)
+    let (ds, dp) := rustShortest m e 52 (1 - bias - 52)
     if dp ≤ 0 then sign ++ "0." ++ String.ofList (List.replicate (-dp).toNat '0') ++ FloatFmt.digitsStr ds
     else if dp.toNat < ds.length then
       sign ++ FloatFmt.digitsStr (ds.take dp.toNat) ++ "." ++ FloatFmt.digitsStr (ds.drop dp.toNat)
